@@ -1,7 +1,8 @@
 // ---- prelude/path.rs: what unit PATH (checker/path.rs) needs besides prelude/model.rs ----
 // Needs in the including unit:  #![feature(nonzero_internals)]  use vstd::prelude::*; use std::hash::Hash;
 //   use std::num::{NonZero, ZeroablePrimitive}; use vstd::std_specs::cmp::PartialEqSpec;   and prelude/model.rs before it.
-// TRUSTED items: next_steps, next_states, vec_contains (external_body), axiom_fp_ref (external_body proof),
+// TRUSTED items: vec_contains (external_body), axiom_fp_ref (external_body proof); next_steps / next_states are contract
+// stubs whose real bodies unit MDL proves against the same postconditions,
 // `NonZero<T> == NonZero<T>` (assume_specification).  Everything else is a
 // plain definition.
 
@@ -30,8 +31,12 @@ spec fn succs_of<M: Model>(m: M, s: M::State) -> Seq<M::State> {
 //   actions(s, &mut a1); actions(s, &mut a2); a1.into_iter().zip(a2).filter_map(|(x1, x2)| next_state(s, x1).map(|t| (x2, t))).collect()
 // With A-PURE both `actions` calls give `acts(s)`, so the zip pairs every action with itself, and
 // `filter_map` keeps, in order, the actions that have a successor.  The body below is that transcription
-// (compiled, not verified: zip / filter_map / collect are outside Verus).  A model that OVERRIDES the provided
+// (compiled, not verified here: zip / filter_map / collect are outside Verus).  A model that OVERRIDES the provided
 // methods is outside this contract (no model in /repo does).
+// This is the CALLEE-SIDE CONTRACT STUB for modular calls: the REAL default body, re-extracted from /repo/src/lib.rs on
+// every run, is verified against exactly this postcondition (same spec fn `steps_of`, this file is included there) by
+// unit MDL, obligation MDL.model_next_steps.ensures.steps-in-order.
+// PROVED-IN: MDL.model_next_steps
 #[verifier::external_body]
 fn next_steps<M: Model>(m: &M, last_state: &M::State) -> (r: Vec<(M::Action, M::State)>)
     ensures r@ == steps_of(*m, *last_state)
@@ -46,7 +51,9 @@ fn next_steps<M: Model>(m: &M, last_state: &M::State) -> (r: Vec<(M::Action, M::
 }
 // TRUSTED (rule P_PROVIDED): the default body of `Model::next_states`
 //   actions(s, &mut a); a.into_iter().filter_map(|x| next_state(s, x)).collect()
-// = the states of `next_steps`, in the same order.
+// = the states of `next_steps`, in the same order.  Callee-side contract stub; the real body is verified against this
+// postcondition by unit MDL, obligation MDL.model_next_states.ensures.states-of-steps-in-order.
+// PROVED-IN: MDL.model_next_states
 #[verifier::external_body]
 fn next_states<M: Model>(m: &M, last_state: &M::State) -> (r: Vec<M::State>)
     ensures r@ == succs_of(*m, *last_state)
